@@ -28,6 +28,14 @@ theorem frame_wake : ∀ (l : List (Nat × Nat)) (s : St), Frame s (s.wake l)
     · exact Frame.trans ⟨rfl, rfl, rfl⟩ (frame_wake rest _)
     · exact ⟨rfl, rfl, rfl⟩
 
+theorem wake_base : ∀ (l : List (Nat × Nat)) (s : St), (s.wake l).base = s.base
+  | [], s => rfl
+  | (j, a) :: rest, s => by
+    unfold St.wake
+    split
+    · exact wake_base rest _
+    · rfl
+
 theorem frame_exec (c : Case) (j now : Nat) : ∀ (ops : List Op) (k : Nat) (s : St),
     Frame s (exec c j now ops k s).1
   | [], k, s => by simp only [exec]; exact frame_setSt _ _ _
@@ -73,12 +81,20 @@ def Pop.isFault : Pop → Bool
   | .healall .. => true
   | _ => false
 
+theorem frame_setCap (s : St) (o n : Nat) : Frame s (s.setCap o n) := by
+  unfold St.setCap
+  simp only []
+  split
+  · exact Frame.trans ⟨rfl, rfl, rfl⟩ (frame_wake _ _)
+  · exact ⟨rfl, rfl, rfl⟩
+
 theorem frame_stepOpen (c : Case) (s : St) (p : Pop) (h : p.isFault = false) :
     Frame s (stepOpen c s p).1 := by
   cases p with
   | fault t f a => simp [Pop.isFault] at h
   | cancel t f => simp [Pop.isFault] at h
   | healall t k => simp [Pop.isFault] at h
+  | setcap t v => simp only [stepOpen]; exact Frame.trans ⟨rfl, rfl, rfl⟩ (frame_setCap _ _ _)
   | job t j cont =>
     cases cont with
     | false =>
@@ -114,13 +130,6 @@ theorem frame_step (c : Case) (s : St) (p : Pop) (h : p.isFault = false) :
     · exact frame_stepOpen c s p h
   · exact frame_stepOpen c s p h
 
-theorem frame_setCap (s : St) (o n : Nat) : Frame s (s.setCap o n) := by
-  unfold St.setCap
-  simp only []
-  split
-  · exact Frame.trans ⟨rfl, rfl, rfl⟩ (frame_wake _ _)
-  · exact ⟨rfl, rfl, rfl⟩
-
 /-- a fault event the engine can have delivered (`faultBad = false`: the handle is not cancelled,
     activation first, each event of a scheduled fault once) applies exactly its closure to the window
     state -/
@@ -134,8 +143,8 @@ theorem step_fault (c : Case) (s : St) (t f : Nat) (a : Bool) (ft : Fault)
   have := frame_setCap
     { s with ws := if a then s.ws.activate f ft.kind else s.ws.deactivate f ft.kind,
              fired := (f, a) :: s.fired }
-    (s.ws.capOf c.cap)
-    ((if a then s.ws.activate f ft.kind else s.ws.deactivate f ft.kind).capOf c.cap)
+    (s.ws.capOf s.base)
+    ((if a then s.ws.activate f ft.kind else s.ws.deactivate f ft.kind).capOf s.base)
   exact ⟨by simpa using this.1, by simpa using this.2.1, by simpa using this.2.2⟩
 
 /-- `Network.heal_partition()` touches the partition reference counts and handles only -/
